@@ -644,7 +644,7 @@ def real_sessions(scratch, n_variants):
     eb_syn = os.path.join(scratch, "pkg-3.ebuild")
     with open(eb_syn, "w") as f:
         f.write('EAPI=8\nDESCRIPTION="d\nSLOT=0\n')
-    def real_setup_phase(bashrc_bodies, ebuild_body, phase="setup"):
+    def real_setup_phase(bashrc_bodies, ebuild_body, phase="setup", names=None):
         """Everything a real phase run needs, built lazily inside the harness process."""
         def build():
             from functools import partial
@@ -668,7 +668,7 @@ def real_sessions(scratch, n_variants):
                         "PKGCORE_EMPTYDIR": os.path.join(tmp, "empty")})
             paths = []
             for k, body in enumerate(bashrc_bodies):
-                bp = os.path.join(tmp, f"bashrc-{k}")
+                bp = os.path.join(tmp, names[k] if names else f"bashrc-{k}")
                 with open(bp, "w") as f:
                     f.write(body)
                 paths.append(bp)
@@ -700,6 +700,12 @@ def real_sessions(scratch, n_variants):
         ("nonfatal-die-n", [dict(kind="run_phase_file", need=0, have=0,
                                  real=real_setup_phase(["X=1\n"], 'f() { die -n "tolerated"; }\npkg_setup() { nonfatal f; echo after > "${T}/after"; }\n')),
                             dict(kind="is_responsive"), dict(kind="shutdown")]),
+        # line payloads are opaque: a path with backslashes (also as its last character, where a
+        # shell `read` without -r would splice the next protocol line onto it) is still one line
+        ("bashrc-paths-with-backslashes", [dict(kind="run_phase_file", need=0, have=0,
+                                                real=real_setup_phase(["BRC_MARK=one\n", "BRC_MARK=${BRC_MARK}-two\n"], setup_body,
+                                                                      names=["brc\\one", "brc two\\"])),
+                                           dict(kind="is_responsive"), dict(kind="shutdown")]),
         ("regen-with-inherit", [dict(kind="set_metadata_path", need=1, have=1), dict(kind="gen_metadata", need=1, have=1, ebuild=eb_ok),
                                 dict(kind="gen_metadata", need=1, have=1, ebuild=eb_ok), dict(kind="is_responsive"), dict(kind="shutdown")]),
         ("env-dump", [dict(kind="gen_env", need=1, have=1, ebuild=eb_ok), dict(kind="is_responsive"), dict(kind="shutdown")]),
@@ -817,7 +823,7 @@ def run(ck):
     # 3. code -> spec with the real daemon
     base = len(behs)
     if not ck.replay_case:
-        for k, (name, recs) in enumerate(real_sessions(scratch, ck.pick(14, 14))):
+        for k, (name, recs) in enumerate(real_sessions(scratch, ck.pick(15, 15))):
             evs = to_events(base + k, recs, "real")
             events += evs
             sessions[base + k] = name
